@@ -41,6 +41,9 @@ def candidates(wt, files):
                 in_test = True
             if in_test or "verif_hooks" in line or line.strip().startswith("//") or line.strip().startswith("#["):
                 continue
+            # inside a `verif_hooks::emit(|| format!(..))` block (the hook code itself is not under test)
+            if any("verif_hooks::emit" in lines[j] for j in range(max(0, i - 8), i)) and not any(lines[j].strip() == "});" for j in range(max(0, i - 8), i) if "verif_hooks::emit" not in lines[j] and j > max(k for k in range(max(0, i - 8), i) if "verif_hooks::emit" in lines[k])):
+                continue
             if "debug_assert" in line or "expect(" in line and "emit" in line:
                 continue
             for pat, rep in OPS:
